@@ -37,8 +37,8 @@ RULE = ("exhaustive over abort points: for every scenario of a fixed family (opt
 ASSUMPTIONS = [
     "handlers, observers and the evaluator have no effect on the run other than raising the abort at the chosen delivery index",
     "the abort is OptimizationAborted(USER_ABORT); other exceptions raised by handlers are outside the property",
-    "the nested plan function runs the inner optimizer step and returns the inner tracker's result; the first evaluation of the "
-    "first nested run succeeds (a nested run that never produced a result makes ropt raise TypeError: reported separately)",
+    "the nested plan function runs the inner optimizer step and returns the inner tracker's result (None when no nested "
+    "evaluation has produced function values yet: the outer step then ends with NESTED_OPTIMIZER_FAILED)",
     "nested runs use no transforms (known finding C11:explicit-step-variables)",
 ]
 TRUSTED = [
@@ -115,15 +115,11 @@ class World:
 
 class RecEvaluator(c14.FaultEvaluator):
     def __init__(self, world):
+        super().__init__()
         self.world = world
-        self.pending = None
-        self.case = None
 
     def __call__(self, variables, ctx):
         self.world.call()
-        self.faults = [self.pending]
-        self.calls = 0
-        self.log = None
         return super().__call__(variables, ctx)
 
 
@@ -154,27 +150,7 @@ def _scenario(case, k):
         for et in EventType:
             ctx.add_observer(et, lambda ev, j=j: w.deliver(OBS_BASE + j, ev))
 
-    # the scripted optimizer announces the fault of each request to the evaluator just before the callback
-    orig_start = Scripted.start
-
-    def start(self, x0):
-        import numpy as np
-        nvar = x0.size
-        saved = (evaluator.pending, evaluator.case)     # a nested run must not disturb the pending outer request
-        try:
-            for req in self.spec["script"]:
-                def point(p):
-                    x = np.zeros(nvar)
-                    x[0] = 0.25 * p
-                    return x
-                x = np.vstack([point(req["pt"] + i) for i in range(req["batch"])]) if req["batch"] > 0 else point(req["pt"])
-                evaluator.pending = req.get("fault")
-                evaluator.case = self.spec["case14"]
-                self.cb(x, return_functions=req["kind"] in ("F", "FG"), return_gradients=req["kind"] in ("G", "FG"))
-        finally:
-            evaluator.pending, evaluator.case = saved
-
-    Scripted.start = start
+    Scripted.evaluator = evaluator
     exits = []
     try:
         outer = Plan(ctx)
@@ -217,8 +193,7 @@ def _scenario(case, k):
                     code = outer.run_step(st, config=cfg, **kw)
                 else:
                     req = spec["script"][0]
-                    evaluator.pending = req.get("fault")
-                    evaluator.case = c14case
+                    evaluator.pending, evaluator.pcase = req.get("fault"), c14case
                     variables = ([[0.25 * (req["pt"] + j), 0.0] for j in range(req["batch"])] if req["batch"] > 0
                                  else [0.25 * req["pt"], 0.0])
                     code = outer.run_step(st, config=cfg, variables=variables)
@@ -230,18 +205,15 @@ def _scenario(case, k):
         w.mute = True
         w.k = None
         probe = outer.add_step("evaluator")
-        evaluator.pending = None
-        evaluator.case = _cfg14({"R": 1, "rmin": 1, "allow_nan": False})
+        evaluator.pending, evaluator.pcase = None, _cfg14({"R": 1, "rmin": 1, "allow_nan": False})
         try:
-            outer.run_step(probe, config=c14.make_config(evaluator.case))
+            outer.run_step(probe, config=c14.make_config(evaluator.pcase))
             probe_out = "ran"
         except PlanAborted:
             probe_out = "PlanAborted"
         return {"log": w.log, "exits": exits, "flags": flags, "probe": probe_out}
     except BaseException as e:  # noqa: BLE001 - the class is the observation
         return {"log": w.log, "exits": exits, "flags": [False, False], "probe": "none", "exc": type(e).__name__}
-    finally:
-        Scripted.start = orig_start
 
 
 def run_impl(case):
@@ -470,9 +442,12 @@ def scenario_family(tier):
         ("two-steps", [_opt([F, G]), _evs()]),
         ("three-steps", [_evs(), _opt([F, _req("F", 1, 0, BAD)]), _opt([FG])]),
         ("nested-2x2", [_opt([F, _req("F", 1)], inner=_inner([[F, _req("F", 1)], [F, G]]))]),
-        ("nested-budget-toofew", [_opt([F, F, F], maxf=2, inner=_inner([[F, F, F], [F, _req("F", 1, 0, BAD), F]], maxf=2))]),
+        ("nested-budget-toofew", [_opt([F, F, F], maxf=2, inner=_inner([[F, F, F], [F, _req("F", 1, 0, BAD), F], [F]], maxf=2))]),
         ("nested-then-eval", [_opt([FG], inner=_inner([[F]])), _evs()]),
         ("nested-outer-toofew", [_opt([_req("F", 0, 0, BAD), F], inner=_inner([[F], [F]]))]),
+        ("nested-no-result", [_opt([F, F], inner=_inner([[_req("F", 0, 0, BAD), F], [F]]))]),
+        ("nested-no-result-then-steps", [_opt([F], inner=_inner([[_req("FG", 0, 0, BAD)]])), _evs(),
+                                         _opt([F, F], inner=_inner([[F], [_req("F", 1, 0, BAD)]]))]),
     ]
     if tier == "thorough":
         fam += [
@@ -508,7 +483,7 @@ def _random_scenario(rng):
             n = rng.randint(1, 3)
             scripts = []
             for _ in range(n):
-                sc = [_req("F")] + [rreq(False) for _ in range(rng.randint(0, 2))]
+                sc = ([_req("F")] if rng.random() < 0.7 else []) + [rreq(False) for _ in range(rng.randint(1, 2))]
                 scripts.append(sc)
             steps.append(_opt([rreq(False) for _ in range(n)], rmin=rng.choice([1, 2]), maxf=rng.choice([None, None, 1, 2]),
                               inner=_inner(scripts, maxf=rng.choice([None, 1, 2]))))
@@ -557,13 +532,15 @@ def _step_term(spec):
 
 def _entry(e):
     if e[0] == CALL:
-        return "OC"
-    return f"(OD {cq.nat(e[0])} {cq.nat(e[1])} {cq.z(e[2])})"
+        return "(-1)"
+    if not (0 <= e[0] < 100 and 0 <= e[1] < 1000 and 0 <= e[2] < 10):
+        raise ValueError(f"log entry out of range: {e}")
+    return str(e[0] * 10000 + e[1] * 10 + e[2])
 
 
 def _run_term(o):
-    exits = cq.lst(f"({cq.nat(s)}, {cq.z(c)})" for s, c in o["exits"])
-    return (f"(Build_robs {cq.lst(_entry(e) for e in o['log'])} {exits} {cq.b(o['flags'][0])} {cq.b(o['flags'][1])} "
+    exits = cq.lst(f"({int(s)}, {int(c)})" for s, c in o["exits"]) + "%Z"
+    return (f"(Build_robs {cq.lst(_entry(e) for e in o['log'])}%Z {exits} {cq.b(o['flags'][0])} {cq.b(o['flags'][1])} "
             f"{cq.b(o['probe'] == 'PlanAborted')} {cq.b('exc' in o)})")
 
 
